@@ -29,6 +29,7 @@ type Trial struct {
 	Names []string   `json:"names"`           // member names (valid UTF-8), tried one per input and all together
 	Dup   bool       `json:"dup"`             // the combined input is also run with AllowDuplicateNames(true)
 	Funcs bool       `json:"funcs,omitempty"` // caller-supplied functions for a type that occurs nowhere are passed along (they apply to nothing)
+	FMeth bool       `json:"fmeth,omitempty"` // a caller-supplied MarshalFunc for MethStr is passed along (it replaces the type's own method; the option value is shared by all value profiles of the trial)
 }
 
 // Case is one struct type with value profiles for Marshal and several trials.
@@ -188,7 +189,14 @@ func Run(c Case) error {
 			return err
 		}
 		optSig := optString(tr.Opts)
-		if tr.Funcs {
+		if tr.FMeth {
+			opts = append(opts, json.WithMarshalers(json.JoinMarshalers(
+				json.MarshalFunc(func(m MethStr) ([]byte, error) { return []byte(`"f:` + string(m) + `"`), nil }),
+				json.MarshalFunc(func(m PlainStr) ([]byte, error) { return []byte(`"f:` + string(m) + `"`), nil }))))
+			fl.funcMeth = true
+			optSig += " +MarshalFunc(MethStr)"
+			rec.Class("trial: with a function for a field type")
+		} else if tr.Funcs {
 			opts = append(opts,
 				json.WithMarshalers(json.MarshalFunc(func(otherT) ([]byte, error) { return []byte(`"other"`), nil })),
 				json.WithUnmarshalers(json.UnmarshalFunc(func([]byte, *otherT) error { return nil })))
